@@ -86,6 +86,10 @@ func (this *Hnsw) Insert(id uuid.UUID, value math.Vector, metadata Metadata, ver
 		}
 		verifYield("insert.beforeFirstEntrypointCAS")
 		if atomic.CompareAndSwapPointer(&this.entrypoint, nil, unsafe.Pointer(vertex)) {
+			if vertex.isDeleted() {
+				// Removed by a concurrent Remove before it became the entry point.
+				this.handOverEntrypoint()
+			}
 			return nil
 		}
 		// Lost the race for the first entry point. The vertex is already
